@@ -147,6 +147,19 @@ func genRec(r *rand.Rand) (agg.Rec, want) {
 		cname = "destinationClusterIPv6"
 	}
 	rec.IP[cname] = cluster
+	// a narrower layout: some optional elements are not part of this record's template at all
+	optional := map[string]protowire.Number{"sourcePodName": 19, "sourcePodNamespace": 20, "sourceNodeName": 21, "destinationPodName": 22, "destinationPodNamespace": 23,
+		"destinationNodeName": 24, "destinationServicePort": 34, "destinationServicePortName": 26, "ingressNetworkPolicyName": 29, "ingressNetworkPolicyNamespace": 30,
+		"egressNetworkPolicyName": 31, "egressNetworkPolicyNamespace": 32, "packetDeltaCount": 13, "octetDeltaCount": 14, "reversePacketDeltaCount": 17, "reverseOctetDeltaCount": 18,
+		"flowStartSeconds": 4, cname: 25}
+	rec.Omit = map[string]bool{}
+	if r.IntN(2) == 0 {
+		for n := range optional {
+			if r.IntN(3) == 0 {
+				rec.Omit[n] = true
+			}
+		}
+	}
 	w := want{varint: map[protowire.Number]uint64{}, str: map[protowire.Number]string{}}
 	vi := func(n protowire.Number, v uint64) {
 		if v != 0 {
@@ -186,6 +199,10 @@ func genRec(r *rand.Rand) (agg.Rec, want) {
 	st(30, rec.Str["ingressNetworkPolicyNamespace"])
 	st(31, rec.Str["egressNetworkPolicyName"])
 	st(32, rec.Str["egressNetworkPolicyNamespace"])
+	for n := range rec.Omit {
+		delete(w.varint, optional[n])
+		delete(w.str, optional[n])
+	}
 	return rec, w
 }
 
